@@ -484,7 +484,7 @@ def main(argv):
         broken_corr = an["corr"] or an["missing"]
         broken_proof = bool(aud["problems"])
         if crashed:
-            rp = write_replay(prop, "crash", {"property": prop, "kind": "crash", "message": crashed, "case": text[-20000:]})
+            rp = write_replay(prop, "crash", {"property": prop, "kind": "crash", "message": crashed, "case": text})
             violations.append((rp, "crash"))
         if (broken_corr or broken_proof) and not direct and not known_lines:
             # search harder for a concrete failing input of the property itself
